@@ -193,6 +193,46 @@ for _new in range(4):
     gen(_DEDUP.format(new=_new), globals())
 
 
+@cond(timeout=300, encodes=ENC,
+      bound="the same source (one file path, or one stream object) added twice to one package while its content is digest a at the "
+            "first add and digest b at the second (a, b from a pool of 3; the file was overwritten when a != b), optionally with another "
+            "image added in between: the second picture gets a part holding the second content; one part iff a == b")
+def same_source_read_again_each_time(a: int, b: int, as_path: bool, between: bool, e: int) -> bool:
+    """
+    pre: 0 <= a < 3 and 0 <= b < 3 and 0 <= e < len(EXTS)
+    post: _
+    """
+    import io
+
+    import pptx.package as PK
+
+    pkg = Package(None)
+    holder = Part(PackURI("/ppt/slides/slide1.xml"), "application/x-slide", pkg, b"")
+    pkg.relate_to(holder, RT.SLIDE)
+    src = "figures/current.png" if as_path else io.BytesIO(b"stream")
+    disk = {}
+    saved = PK.Image.from_file
+    PK.Image.from_file = staticmethod(lambda f: _StandInImage(disk[id(f) if not isinstance(f, str) else f], EXTS[e]))
+
+    def add(source, sha):
+        disk[id(source) if not isinstance(source, str) else source] = sha
+        part = pkg._image_parts.get_or_add_image_part(source)
+        part.__dict__.setdefault("sha1", sha)  # the digest hashlib would compute for a newly created part
+        holder.relate_to(part, RT.IMAGE)
+        return part
+
+    try:
+        first = add(src, SHAS[a])
+        if between:
+            add("other.png", "s7")
+        second = add(src, SHAS[b])
+    finally:
+        PK.Image.from_file = saved
+    if second.blob != b"bytes-" + SHAS[b].encode() or first.blob != b"bytes-" + SHAS[a].encode():
+        return False
+    return (second is first) == (a == b) and (second.partname == first.partname) == (a == b)
+
+
 @cond(expect="refute", timeout=300, twin_of="image_parts_are_deduplicated_0")
 def image_parts_twin(k: int, s0: int, s1: int, s2: int, new: int) -> bool:
     """
